@@ -463,6 +463,27 @@ fn mask_ns(obs: &str) -> String {
   }
 }
 
+/// The two observations differ only in their nanoseconds and by at most `tol` ns (the reach of the f64 route).
+fn ns_close(a: &str, b: &str, tol: i128) -> bool {
+  let field = |obs: &str| -> Option<i128> {
+    let toks: Vec<&str> = obs.trim_end_matches(')').splitn(9, ' ').collect();
+    if obs.starts_with("(time ") && toks.len() >= 6 {
+      toks[4].parse().ok()
+    } else if obs.starts_with("(dt ") && toks.len() >= 9 {
+      toks[7].parse().ok()
+    } else if obs.starts_with("(dtd ") && toks.len() == 2 {
+      toks[1].parse().ok()
+    } else {
+      None
+    }
+  };
+  let same_rest = if a.starts_with("(dtd ") { b.starts_with("(dtd ") } else { mask_ns(a) == mask_ns(b) };
+  match (field(a), field(b)) {
+    (Some(x), Some(y)) => same_rest && (x - y).abs() <= tol,
+    _ => false,
+  }
+}
+
 fn known_zone(cache: &mut std::collections::HashMap<String, bool>, name: &str) -> bool {
   if let Some(b) = cache.get(name) {
     return *b;
@@ -920,10 +941,10 @@ fn run_inner(cfg: &Cfg) -> Report {
       continue;
     }
     if &o.v != m {
-      if mask_ns(&o.v) == mask_ns(m) && c.text.contains('.') {
+      if ns_close(&o.v, m, 2) && !o.v.starts_with("(dtd") && c.text.contains('.') {
         // the only difference is the nanoseconds of a written fraction: the f64 route
         rep.disagree(Kind::ImplVsSpec, "literal_exact", "C14 fractional seconds: the f64 conversion differs from the written digits", &input, &o.v, m);
-      } else if c.kind == "dur" && c.text.contains('.') && o.v.starts_with("(dtd") && m.starts_with("(dtd") {
+      } else if c.kind == "dur" && c.text.contains('.') && ns_close(&o.v, m, 2) {
         rep.disagree(Kind::ImplVsSpec, "literal_exact", "C14 fractional seconds of a duration: the f64 conversion differs from the written digits", &input, &o.v, m);
       } else if o.v == "null" && m.starts_with('(') && rounds_to_one(&c.text) {
         // `.999999999…` parses to the f64 1.0: 10⁹ ns, which chrono accepts only at second 59
@@ -939,7 +960,7 @@ fn run_inner(cfg: &Cfg) -> Report {
         // have (or the reverse): the database is a parameter, not part of the property
         rep.hit("zone:unknown-to-the-bundled-database");
       } else if &o.v != want {
-        let f64_only = (mask_ns(&o.v) == mask_ns(want) || (o.v.starts_with("(dtd") && want.starts_with("(dtd"))) && c.text.contains('.');
+        let f64_only = ns_close(&o.v, want, 2) && c.text.contains('.');
         let sig = if o.v == "null" && want.starts_with('(') && rounds_to_one(&c.text) {
           "C14 fractional seconds: a fraction that f64 rounds up to 1.0 makes the literal null"
         } else if f64_only {
